@@ -279,7 +279,7 @@ fn pool_read_header_any() {
     }
 }
 
-// @harness name=pool_build_from_data_any kind=Bk tier=thorough props=C02,C09 bound="<= 2 entries, lengths <= 3, data of 0..=6 bytes; decode stubbed" desc="build_from_data never panics: it returns an error when the data stream is shorter than the declared lengths and otherwise one entry per declared (length, refcount) with the refcounts as declared, flags copied from the builder and the pool marked unmodified"
+// @harness name=pool_build_from_data_any kind=Bk tier=thorough props=C02,C09 bound="<= 2 entries, lengths <= 3, data of 0..=6 bytes; decode stubbed" desc="build_from_data never panics: it returns an error when the data stream is shorter than the declared lengths and otherwise one entry per declared (length, refcount) with the refcounts as declared (an entry declared unused -- count 0 -- is loaded empty), flags copied from the builder and the pool marked unmodified"
 #[kani::proof]
 #[kani::unwind(5)]
 #[kani::stub(alloc::fmt::format, stub_format)]
@@ -306,8 +306,10 @@ fn pool_build_from_data_any() {
         let p = must(got);
         assert!(p.strings.len() == n);
         assert!(p.long_string_refs == long && !p.is_modified);
-        if n > 0 { assert!(p.strings[0].1 == c[0] && p.strings[0].0.is_empty() == (l[0] == 0)); }
-        if n > 1 { assert!(p.strings[1].1 == c[1] && p.strings[1].0.is_empty() == (l[1] == 0)); }
+        // (an entry with reference count 0 is unused and is loaded EMPTY whatever length it declares:
+        // fix D17; its bytes are still skipped in the data stream)
+        if n > 0 { assert!(p.strings[0].1 == c[0] && p.strings[0].0.is_empty() == (l[0] == 0 || c[0] == 0)); }
+        if n > 1 { assert!(p.strings[1].1 == c[1] && p.strings[1].0.is_empty() == (l[1] == 0 || c[1] == 0)); }
     }
 }
 
